@@ -12,29 +12,36 @@ VARIABLES tid, l, bad,
           src,        \* sequence of sources: [ao, kind, sig, p, n, d, t0, fired, cancelled, rejected, state]
           stopped,    \* AOs whose stop() has returned (or was called from their own handler)
           stopcalled,
+          ccall,      \* caller -> position in the trace of its pending cancel_events call (0: none)
           slack       \* total of the delays injected so far ("stall": a runnable thread was held back while the clock went on)
-vars == <<tid, l, bad, src, stopped, stopcalled, slack>>
+vars == <<tid, l, bad, src, stopped, stopcalled, slack, ccall>>
 T == All[tid]
 E == T.ev[l]
 Time == E[Len(E)]
 Chk(ok, name) == IF ok THEN {} ELSE {name}
-TInit == tid \in DOMAIN All /\ l = 1 /\ bad = {} /\ src = <<>> /\ stopped = {} /\ stopcalled = {} /\ slack = 0
-Tracked(ao) == Cardinality({i \in 1..Len(src) : src[i].ao = ao /\ src[i].state = "accepted" /\ ~src[i].removed})
+TInit == tid \in DOMAIN All /\ l = 1 /\ bad = {} /\ src = <<>> /\ stopped = {} /\ stopcalled = {} /\ slack = 0 /\ ccall = <<>>
+(* a source whose post overlapped a cancel_events call for its signal name may or may not have been stopped by it (`maybe`): *)
+(* the call may be ordered before or after the post.  Such a source is owed nothing until a later cancellation settles it.   *)
+TrackedLow(ao) == Cardinality({i \in 1..Len(src) : src[i].ao = ao /\ src[i].state = "accepted" /\ ~src[i].removed /\ ~src[i].maybe})
+TrackedHigh(ao) == Cardinality({i \in 1..Len(src) : src[i].ao = ao /\ src[i].state \in {"accepted", "calling"} /\ ~src[i].removed})
+Who == E[Len(E) - 1]
+CallAt(w) == IF w \in DOMAIN ccall THEN ccall[w] ELSE 0
 
 Step ==
   CASE E[1] = "call" /\ E[2] = "tpost" ->
          /\ src' = Append(src, [ao |-> E[3], kind |-> E[5], sig |-> E[6], p |-> E[7], n |-> E[8], d |-> E[9], t0 |-> Time,
-                                fired |-> 0, cancelled |-> FALSE, removed |-> FALSE, halted |-> FALSE, state |-> "calling",
+                                fired |-> 0, cancelled |-> FALSE, removed |-> FALSE, halted |-> FALSE, state |-> "calling", maybe |-> FALSE, acc |-> 0,
                                 by |-> E[Len(E) - 1], early |-> E[3] \notin stopcalled])
          /\ bad' = Chk(E[4] = Len(src) + 1, "Harness") /\ UNCHANGED <<stopped, stopcalled>>
     [] E[1] = "ret" /\ E[2] = "tpost" ->
          LET i == E[4]
-             full == Tracked(src[i].ao) >= T.tcap
+             full == TrackedLow(src[i].ao) >= T.tcap
+             room == TrackedHigh(src[i].ao) - 1 < T.tcap       \* not counting this post itself
          (* `early`: the post had RETURNED before stop() was called (a post that overlaps stop() may be ordered after it) *)
-         IN /\ src' = [src EXCEPT ![i].state = IF E[5] = "ok" THEN "accepted" ELSE "rejected",
+         IN /\ src' = [src EXCEPT ![i].state = IF E[5] = "ok" THEN "accepted" ELSE "rejected", ![i].acc = l,
                                   ![i].early = src[i].ao \notin stopcalled]
             /\ bad' = Chk(full => E[5] = "raised:ActiveObjectOutOfPostedEventResources", "ShouldReject")           \* C31
-                   \cup Chk(~full => E[5] = "ok", "ShouldAccept")
+                   \cup Chk(room => E[5] = "ok", "ShouldAccept")
             /\ UNCHANGED <<stopped, stopcalled>>
     [] E[1] = "qapp" /\ E[8] # 0 ->
          LET i == E[8]
@@ -52,10 +59,17 @@ Step ==
     [] E[1] = "ret" /\ E[2] = "cancel" ->
          /\ src' = [i \in 1..Len(src) |-> IF i = E[4] THEN [src[i] EXCEPT !.cancelled = TRUE, !.removed = TRUE] ELSE src[i]]
          /\ bad' = {} /\ UNCHANGED <<stopped, stopcalled>>
+    [] E[1] = "call" /\ E[2] = "cancels" ->
+         bad' = {} /\ UNCHANGED <<src, stopped, stopcalled>>
     [] E[1] = "ret" /\ E[2] = "cancels" ->
-         /\ src' = [i \in 1..Len(src) |-> IF src[i].ao = E[3] /\ src[i].sig = E[4] /\ src[i].state = "accepted"
-                                           THEN [src[i] EXCEPT !.cancelled = TRUE, !.removed = TRUE] ELSE src[i]]
-         /\ bad' = {} /\ UNCHANGED <<stopped, stopcalled>>
+         (* owed: every source of that name whose post had returned before this call was made; a post that overlaps the call *)
+         (* may be ordered either way                                                                                         *)
+         /\ src' = [i \in 1..Len(src) |->
+                     IF src[i].ao = E[3] /\ src[i].sig = E[4] /\ src[i].state = "accepted" /\ src[i].acc < CallAt(Who)
+                     THEN [src[i] EXCEPT !.cancelled = TRUE, !.removed = TRUE]
+                     ELSE IF src[i].ao = E[3] /\ src[i].sig = E[4] /\ src[i].state \in {"accepted", "calling"} /\ ~src[i].cancelled
+                     THEN [src[i] EXCEPT !.maybe = TRUE] ELSE src[i]]
+         /\ bad' = Chk(CallAt(Who) > 0, "Harness") /\ UNCHANGED <<stopped, stopcalled>>
     [] E[1] = "call" /\ E[2] = "stop" -> stopcalled' = stopcalled \cup {E[3]} /\ bad' = {} /\ UNCHANGED <<src, stopped>>
     [] E[1] = "ret" /\ E[2] = "stop" ->
          /\ stopped' = stopped \cup {E[3]}
@@ -71,7 +85,7 @@ Step ==
 (* what a source that was left alone must have done by the horizon H *)
 Due(s, H) == LET c == IF H < s.t0 + s.p * s.d THEN 0 ELSE ((H - s.t0 - s.p * s.d) \div s.p) + 1
              IN IF s.n = 0 THEN c ELSE IF c < s.n THEN c ELSE s.n
-Alone(s) == s.state = "accepted" /\ ~s.cancelled /\ ~s.halted /\ s.ao \notin stopcalled
+Alone(s) == s.state = "accepted" /\ ~s.cancelled /\ ~s.halted /\ ~s.maybe /\ s.ao \notin stopcalled
 Final ==
        Chk(T.end.outcome # "bound", "NoProgress") \cup Chk(T.end.outcome # "error", "Error")
   \cup Chk(T.end.outcome # "quiescent" \/ T.end.drivers_done, "Hang")
@@ -86,6 +100,7 @@ TNext ==
   /\ bad = {} /\ l <= Len(T.ev) + 1 /\ tid' = tid /\ l' = l + 1
   /\ IF l <= Len(T.ev) THEN Step ELSE bad' = Final /\ UNCHANGED <<src, stopped, stopcalled>>
   /\ slack' = IF l <= Len(T.ev) /\ E[1] = "stall" THEN slack + E[3] ELSE slack
+  /\ ccall' = IF l <= Len(T.ev) /\ E[1] = "call" /\ E[2] = "cancels" THEN [w \in DOMAIN ccall \cup {Who} |-> IF w = Who THEN l ELSE ccall[w]] ELSE ccall
   /\ IF bad' # {} THEN PrintT(ToJson([tid |-> T.tid, at |-> l, bad |-> bad', ev |-> IF l <= Len(T.ev) THEN E ELSE <<>>,
                                       fired |-> [i \in 1..Len(src) |-> src[i].fired]]))
      ELSE IF l = Len(T.ev) + 1 THEN PrintT(ToJson([tid |-> T.tid, done |-> l, fires |-> [i \in 1..Len(src) |-> src[i].fired]])) ELSE TRUE
